@@ -1008,7 +1008,7 @@ func (f *fgen) stmt() (terminated bool) {
 	r := f.r
 	d := f.g.cfg.Depth
 	c := f.c
-	k := r.Intn(37)
+	k := r.Intn(39)
 	if f.g.cfg.CallHeavy && r.Chance(1, 3) {
 		k = 9
 	}
@@ -1383,6 +1383,61 @@ func (f *fgen) stmt() (terminated bool) {
 			f.ctrUsed--
 			c.LocalSet(b2).LocalSet(b1)
 			f.g.use("loop-with-params")
+		}
+	case k == 37 || k == 38: // repeated accesses through ONE address local, with things in between that grow or move the memory
+		ls := f.localsOf(i32)
+		if len(ls) > 0 && f.g.memBytes > 0 {
+			a := ls[r.Intn(len(ls))]
+			f.expr(i32, d-1)
+			c.I32Const(int32(f.g.memBytes/2 - 1)).Op(0x71).LocalSet(a)
+			n := 2 + r.Intn(3)
+			for i := 0; i < n; i++ {
+				off := uint32(r.Intn(64))
+				if r.Chance(1, 3) {
+					o := storeOps[r.Intn(len(storeOps))]
+					c.LocalGet(a)
+					f.expr(o.T, d-1)
+					c.Raw(o.Enc).U32(uint32(r.Intn(int(log2(o.Width)) + 1))).U32(off)
+					f.g.use(o.Name)
+				} else {
+					o := loadOps[r.Intn(len(loadOps))]
+					c.LocalGet(a)
+					c.Raw(o.Enc).U32(uint32(r.Intn(int(log2(o.Width)) + 1))).U32(off)
+					f.g.use(o.Name)
+					if tl := f.localsOf(o.T); len(tl) > 0 && !(o.T == i32 && len(tl) == 1) {
+						t := tl[r.Intn(len(tl))]
+						if t == a { // keep the address local
+							c.Drop()
+						} else {
+							c.LocalSet(t)
+						}
+					} else {
+						c.Drop()
+					}
+				}
+				if i == n-1 {
+					break
+				}
+				switch r.Intn(6) {
+				case 0, 1:
+					c.I32Const(int32(r.Intn(3)))
+					c.MemoryGrow().Drop()
+					f.g.use("memory.grow")
+				case 2:
+					fn := f.anyCallTarget()
+					f.emitCall(fn, d)
+					for range f.g.sigs[fn].Results {
+						c.Drop()
+					}
+				case 3:
+					f.store(d)
+				case 4:
+					if f.stmts(1) {
+						return true
+					}
+				}
+			}
+			f.g.use("address-local-reuse")
 		}
 	default:
 		f.store(d)
